@@ -15,6 +15,13 @@ Open Scope list_scope.
 
 Arguments var_ok : simpl never.
 
+Lemma cbind_snoc_gen : forall xs vs y w e ce1, cbind xs vs ((y, w) :: e) = Some ce1 -> cbind (xs ++ [y]) (vs ++ [w]) e = Some ce1.
+Proof.
+  induction xs as [|x r IH]; intros vs y w e ce1 H; destruct vs as [|v vr]; simpl in *; try discriminate.
+  - exact H.
+  - destruct (cbind r vr ((y, w) :: e)) as [e0|] eqn:E; [|discriminate]. rewrite (IH _ _ _ _ _ E). exact H.
+Qed.
+
 Section FLh.
   Variable p : fcprog.
   Variable cp : cprog.
@@ -23,56 +30,65 @@ Section FLh.
 
   (* ---------- calls ---------- *)
   Lemma fl_call : forall N f args ret,
-    (forall N', (N' < N)%nat -> forall t, flw p cp N' t) -> Forall (flc p cp N) args ->
-    flw p cp N (FCall f args ret) /\ flc p cp N (FCall f args ret).
+    (forall N', (N' < N)%nat -> forall t, flw p cp N' t) -> Forall (flc p cp N) args -> Forall (flt p cp N) args ->
+    flw p cp N (FCall f args ret).
   Proof.
-    intros N f args ret IHN HA.
-    assert (HW : flw p cp N (FCall f args ret)).
-    { intros n Hn G cur cont st s st' e ce k Hwc Hf Hws Hnc Hl HG Hbn Hni H8 Hsh He HCK.
-      rewrite wc_unfold in Hwc. apply wc_call_inv in Hwc. destruct Hwc as [args' [ret0 [Hargs [Eret Es]]]]. subst s.
-      simpl in Hf, Hws, Hnc.
-      apply andb_prop in Hf. destruct Hf as [Hf Hfa]. apply andb_prop in Hf. destruct Hf as [Hnm Hck].
-      apply negb_true_iff in Hnm. apply String.eqb_neq in Hnm.
-      assert (HKS : KS p cp n k cont ce).
-      { apply (proj2 HCK). intros x Hx. unfold Sof. apply in_cnames_inv in Hx. destruct Hx as [bb [Hbb E]]. subst x.
-        apply in_cnames. apply (proj2 (fvs_call _ _ _ _)). apply fva_app. right. apply fva_cons. left. exact Hbb. }
-      destruct n as [|n1]; [apply sim_zero|].
-      eapply sim_fstep; [reflexivity|]. apply sim_cstep. simpl. rewrite start_args_eq.
-      apply (args_sim p cp Hcod N args HA n1 ltac:(lia) false G cur st args' st' e ce [CConsumer cont]
-               (AfCall f) (FinCall (new_id f)) k [] [] Hargs Hfa).
-      - intros E. discriminate E.
-      - exact Hws.
-      - exact Hnc.
-      - exact Hl.
-      - exact HG.
-      - exact Hbn.
-      - eapply erel_weaken; [exact He | | lia]. apply Sof_incl. intros bb Hx.
-        apply (proj2 (fvs_call _ _ _ _)). apply fva_app. left. exact Hx.
-      - intros j Hj new new' Hnew Hkinds.
-        apply (call_finish p cp Hdefs N IHN j ltac:(lia) f args e ce k cont new new' Hnm Hck Hnew Hkinds Hsh).
-        eapply KS_mono; [exact HKS | lia]. }
-    split; [exact HW|].
-    apply (flc_default p cp N (FCall f args ret)
-             (fun cur => wc_call f (subst_with (fun y => cmp (codata_of p) cur false y) args) ret)); [| |exact HW].
-    - intros cur cont. apply wc_unfold.
-    - intros cur ty0. apply cmp_unfold.
+    intros N f args ret IHN HA HT.
+    intros n Hn G cur cont st s st' e ce k Hwc Hf Hkd Hws Hnc Hl HG Hbn Hni H8 Hsh He HCK.
+    rewrite wc_unfold in Hwc. apply wc_call_inv in Hwc. destruct Hwc as [args' [ret0 [Hargs [Eret Es]]]]. subst s.
+    simpl in Hf, Hkd, Hws, Hnc.
+    apply andb_prop in Hf. destruct Hf as [Hf Hfa]. apply andb_prop in Hf. destruct Hf as [Hnm Hck].
+    apply negb_true_iff in Hnm. apply String.eqb_neq in Hnm.
+    change (tkind p (FCall f args ret)) with (f_is_codata_o p ret) in *.
+    assert (HKS : KS p cp n (f_is_codata_o p ret) k cont ce).
+    { apply (proj2 HCK). intros x Hx. unfold Sof. apply in_cnames_inv in Hx. destruct Hx as [bb [Hbb E]]. subst x.
+      apply in_cnames. apply (proj2 (fvs_call _ _ _ _)). apply fva_app. right. apply fva_cons. left. exact Hbb. }
+    destruct n as [|n1]; [apply sim_zero|].
+    eapply sim_fstep; [reflexivity|]. apply sim_cstep. simpl. rewrite start_args_eq.
+    apply (args_sim p cp Hcod N args HA HT n1 ltac:(lia) false G cur st args' st' e ce [CConsumer cont]
+             (AfCall f) (FinCall (new_id f)) k [] [] Hargs Hfa Hkd).
+    - intros E. discriminate E.
+    - exact Hws.
+    - exact Hnc.
+    - exact Hl.
+    - exact HG.
+    - exact Hbn.
+    - eapply erel_weaken; [exact He | | lia]. apply Sof_incl. intros bb Hx.
+      apply (proj2 (fvs_call _ _ _ _)). apply fva_app. left. exact Hx.
+    - intros j Hj new new' Hnew Hkinds.
+      apply (call_finish p cp Hcod Hdefs N IHN j ltac:(lia) f args ret e ce k cont new new' Hnm Hck Hnew Hkinds Hsh).
+      eapply KS_mono; [exact HKS | lia].
   Qed.
 
   (* ---------- constructors ---------- *)
-  Lemma ctor_core : forall N x args, Forall (flc p cp N) args ->
+  Lemma darg_props : forall args, forallb (darg_ok p) args = true ->
+    forallb (arg_ok p) args = true /\ forallb (fun y => negb (is_cns_var y) && negb (tkind p y)) args = true.
+  Proof.
+    induction args as [|y r IH]; intros H; [split; reflexivity|]. simpl in H. apply andb_prop in H. destruct H as [Hy Hr].
+    destruct (IH Hr) as [IH1 IH2]. simpl. rewrite IH1, IH2. unfold darg_ok in Hy.
+    apply andb_prop in Hy. destruct Hy as [Hy Hd]. apply andb_prop in Hy. destruct Hy as [Hc Hf].
+    assert (Hs : is_some (fterm_type y) = true) by (unfold data_ty in Hd; destruct (fterm_type y); [reflexivity | discriminate]).
+    assert (Hk : tkind p y = false).
+    { unfold tkind, data_ty in *. destruct (fterm_type y); [|reflexivity]. simpl. apply negb_true_iff in Hd. exact Hd. }
+    rewrite Hc, Hk. split; [|reflexivity]. rewrite andb_true_r.
+    unfold arg_ok. destruct y; try (rewrite Hf, Hs; reflexivity). destruct chi as [[|]|]; try (rewrite Hf, Hs; reflexivity). reflexivity.
+  Qed.
+
+  Lemma ctor_core : forall N x args, Forall (flc p cp N) args -> Forall (flt p cp N) args ->
     forall n, (n <= N)%nat -> forall G cur st args' st' e ce k m,
     subst_with (fun y => cmp (codata_of p) cur false y) args st = Ok (args', st') ->
-    forallb (fun y => negb (is_cns_var y)) args = true -> forallb (arg_ok p) args = true ->
+    forallb (darg_ok p) args = true -> forallb (arg_kd p) args = true ->
     forallb (ws_arg G) args = true -> forallb nocap args = true ->
     lifted_ok cp st' -> Gused G st -> incl (flat_map bnd args) (st_used_vars st) ->
     erel p cp n G (Sof (fva args')) e ce ->
     Kb p cp n k (KRet m) ->
     sim p cp n (FArgs [] args e (AfCtor x) k) (cargs_res cp [] args' ce (FinXtorP (new_id x) m)).
   Proof.
-    intros N x args HA n Hn G cur st args' st' e ce k m Hargs Hpo Hfa Hws Hnc Hl HG Hbn He HK.
+    intros N x args HA HT n Hn G cur st args' st' e ce k m Hargs Hda Hkd Hws Hnc Hl HG Hbn He HK.
+    destruct (darg_props args Hda) as [Hfa Hpo].
     rewrite <- (app_nil_r args').
-    apply (args_sim p cp Hcod N args HA n Hn true G cur st args' st' e ce [] (AfCtor x) (FinXtorP (new_id x) m) k [] []
-             Hargs Hfa (fun _ => Hpo) Hws Hnc Hl HG Hbn He).
+    apply (args_sim p cp Hcod N args HA HT n Hn true G cur st args' st' e ce [] (AfCtor x) (FinXtorP (new_id x) m) k [] []
+             Hargs Hfa Hkd (fun _ => Hpo) Hws Hnc Hl HG Hbn He).
     intros j Hj new new' Hnew Hkinds.
     destruct j as [|j1]; [apply sim_zero|].
     eapply sim_fstep; [simpl; rewrite rev_append_nil_twice; reflexivity|].
@@ -82,25 +98,27 @@ Section FLh.
     - apply vrel_ctor. exists new'. split; [reflexivity|]. eapply brels_mono; [exact Hnew | lia].
   Qed.
 
-  Lemma fl_ctor : forall N x args ty, Forall (flc p cp N) args ->
+  Lemma fl_ctor : forall N x args ty, Forall (flc p cp N) args -> Forall (flt p cp N) args ->
     flw p cp N (FCtor x args ty) /\ flc p cp N (FCtor x args ty).
   Proof.
-    intros N x args ty HA. split.
-    - intros n Hn G cur cont st s st' e ce k Hwc Hf Hws Hnc Hl HG Hbn Hni H8 Hsh He HCK.
+    intros N x args ty HA HT. split.
+    - intros n Hn G cur cont st s st' e ce k Hwc Hf Hkd Hws Hnc Hl HG Hbn Hni H8 Hsh He HCK.
       rewrite wc_unfold in Hwc. apply wc_ctor_inv in Hwc. destruct Hwc as [args' [ty0 [Hargs [Ety Es]]]]. subst s.
-      simpl in Hf, Hws, Hnc. apply andb_prop in Hf. destruct Hf as [Hpo Hfa].
+      simpl in Hf, Hkd, Hws, Hnc. apply andb_prop in Hkd. destruct Hkd as [Hkd Hkty]. apply negb_true_iff in Hkty.
+      assert (Hkind : tkind p (FCtor x args ty) = false) by (unfold tkind; simpl; exact Hkty).
+      rewrite Hkind in *.
       destruct n as [|n1]; [apply sim_zero|].
       eapply sim_fstep; [reflexivity|]. apply sim_cstep. simpl. rewrite start_args_eq.
-      apply (ctor_core N x args HA n1 ltac:(lia) G cur st args' st' e ce k (MCutK cont ce) Hargs Hpo Hfa Hws Hnc Hl HG Hbn).
+      apply (ctor_core N x args HA HT n1 ltac:(lia) G cur st args' st' e ce k (MCutK cont ce) Hargs Hf Hkd Hws Hnc Hl HG Hbn).
       + eapply erel_weaken; [exact He | | lia]. apply Sof_incl. intros bb Hx. apply fvs_cut. left. exact Hx.
       + eapply Kb_mono; [eapply (CK_mcutk p cp (S n1)); eauto | lia].
         intros bb Hbb. apply Sof_in. apply fvs_cut. right. exact Hbb.
-    - intros n Hn G cur ty' st c st' e ce k m Hc Hf Hws Hnc Hl HG Hbn Hty He HK.
+    - intros n Hn G cur ty' st c st' e ce k m Hc Hf Hkd Hk0 Hws Hnc Hl HG Hbn Hty He HK.
       rewrite cmp_unfold in Hc. apply cmp_ctor_inv in Hc. destruct Hc as [args' [ty0 [Hargs [Ety Ec]]]]. subst c.
-      simpl in Hf, Hws, Hnc. apply andb_prop in Hf. destruct Hf as [Hpo Hfa].
+      simpl in Hf, Hkd, Hws, Hnc. apply andb_prop in Hkd. destruct Hkd as [Hkd Hkty].
       destruct n as [|n1]; [apply sim_zero|].
       eapply sim_fstep; [reflexivity|]. apply sim_cstep. simpl. rewrite start_args_eq.
-      apply (ctor_core N x args HA n1 ltac:(lia) G cur st args' st' e ce k m Hargs Hpo Hfa Hws Hnc Hl HG Hbn).
+      apply (ctor_core N x args HA HT n1 ltac:(lia) G cur st args' st' e ce k m Hargs Hf Hkd Hws Hnc Hl HG Hbn).
       + eapply erel_weaken; [exact He | | lia]. intros z Hz. exact Hz.
       + eapply Kb_mono; [exact HK | lia].
   Qed.
@@ -108,129 +126,130 @@ Section FLh.
   (* ---------- case ---------- *)
   Lemma fl_case : forall N scrut targs cls ty,
     flw p cp N scrut -> Forall (fun c => flw p cp N (clause_body c)) cls ->
-    flw p cp N (FCase scrut targs cls ty) /\ flc p cp N (FCase scrut targs cls ty).
+    flw p cp N (FCase scrut targs cls ty).
   Proof.
     intros N scrut targs cls ty Hscrut Hcls.
-    assert (HW : flw p cp N (FCase scrut targs cls ty)).
-    { intros n Hn G cur cont st s st' e ce k Hwc Hf Hws Hnc Hl HG Hbn Hni H8 Hsh He HCK.
-      rewrite wc_unfold in Hwc. apply wc_case_inv in Hwc.
-      destruct Hwc as [cont1 [st0 [cls' [st1 [sty0 [Hshare [Hclauses [Esty Hwscrut]]]]]]]].
-      simpl in Hf, Hws, Hnc.
-      apply andb_prop in Hf. destruct Hf as [Hf Hfc]. apply andb_prop in Hf. destruct Hf as [Hfs Hdt].
-      apply andb_prop in Hws. destruct Hws as [Hws Hwc].
-      apply andb_prop in Hnc. destruct Hnc as [Hnn Hncc]. apply andb_prop in Hnn. destruct Hnn as [Hdisj Hns].
-      set (kcont := CXCase CCns cls' (compile_ty sty0)) in *.
-      assert (Hg2 : grows st1 st') by (eapply wc_grows; exact Hwscrut).
-      assert (Hg1 : grows st0 st1).
-      { revert Hclauses. apply mgrows_clauses_with. apply Forall_forall. intros c0 _ k0.
-        apply (proj1 (wc_cmp_grows (codata_of p) cur false (clause_body c0))). }
-      assert (Lst1 : lifted_ok cp st1) by (eapply lifted_ok_grows; [exact Hl | exact Hg2]).
-      assert (Lst0 : lifted_ok cp st0) by (eapply lifted_ok_grows; [exact Lst1 | exact Hg1]).
-      destruct (shared_CK p cp n cur (Nat.leb (List.length cls) 1 || cont_is_small cont) cont st cont1 st0 k ce
-                  (Sof (fvs s)) Hshare) as [HCK1 [Hsh1 [Hg0 Hsub]]]; auto.
-      { intros E. apply orb_false_iff in E. tauto. }
-      assert (G1 : grows st st1) by (eapply grows_trans; [exact Hg0 | exact Hg1]).
-      assert (Hsc1 : cont_cns cont1) by (apply (cont_shape_cns cp); exact Hsh1).
-      assert (HB : Forall (fun c => ubw p cur (clause_body c)) cls).
-      { apply Forall_forall. intros c _. apply (ub_wc p cur). }
-      assert (Hsrc : forall bb, In bb (fvt kcont) -> inG G (flat_map cl_nm cls) bb \/ In bb (fvt cont)).
-      { intros bb Hbb. apply fvt_xcase in Hbb.
-        destruct (ub_clauses p cur G cont1 cls HB Hsc1 _ _ _ Hclauses Hfc Hwc bb Hbb) as [Hg|Hg]; [left; exact Hg | right; apply Hsub; exact Hg]. }
-      assert (Hcd : is_codata cp (compile_ty sty0) = false).
-      { rewrite (is_codata_compile p cp Hcod). unfold data_ty in Hdt. rewrite Esty in Hdt. apply negb_true_iff in Hdt. exact Hdt. }
-      assert (Hbs : incl (bnd scrut) (st_used_vars st)) by (intros z Hz; apply Hbn; simpl; apply in_or_app; left; exact Hz).
-      destruct n as [|n1]; [apply sim_zero|].
-      eapply sim_fstep; [reflexivity|].
-      apply (Hscrut n1 ltac:(lia) G cur kcont st1 s st' e ce (FkCase cls e k) Hwscrut Hfs Hws Hns Hl).
-      - eapply Gused_grows; eauto.
-      - eapply incl_grows; eauto.
-      - intros x Hx. apply in_cnames_inv in Hx. destruct Hx as [bb [Hbb E]]. subst x.
-        destruct (Hsrc bb Hbb) as [Hg|Hc].
-        + destruct (inG_used G _ bb st HG Hg) as [y [Ey Hy]]. exists y. split; [exact Ey|]. eapply grows_vars_incl; eauto.
-        + eapply names_in_grows; [exact Hni | exact G1 | apply in_cnames; exact Hc].
-      - intros x Hx Hin. apply in_cnames_inv in Hin. destruct Hin as [bb [Hbb E]].
-        destruct (Hsrc bb Hbb) as [Hg|Hc].
-        + destruct (inG_name _ _ _ Hg) as [y [Ey Hy]]. rewrite E in Ey. apply new_id_inj in Ey. subst y.
-          exact (disj_spec _ _ Hdisj x Hx Hy).
-        + apply (H8 x); [simpl; apply in_or_app; left; exact Hx|]. rewrite <- E. apply in_cnames. exact Hc.
-      - exact Hcd.
-      - eapply erel_weaken; [exact He | | lia]. intros x Hx. exact Hx.
-      - split.
-        + intros bb Hbb Hs. destruct (Hsrc bb Hbb) as [[Hg _]|Hc].
-          * eapply erel_kind; eauto.
-          * apply (proj1 HCK); assumption.
-        + intros Hall ce' Ha. exists (KCase cls' ce'). split; [reflexivity|].
-          apply Kb_intro. intros j Hj v pv Hd Hv.
-          destruct j as [|j1]; [apply sim_zero|].
-          destruct v as [z|tag fields|cls0 e0|t0 e0]; try contradiction;
-            [eapply sim_stuck; reflexivity|].
-          apply vrel_ctor in Hv. destruct Hv as [fields' [Epv Hfields]]. subst pv.
-          apply dval_ctor in Hd.
-          pose proof (clauses_find p cur cont1 cls st0 cls' st1 Hclauses tag) as Hfind.
-          destruct (ffind_clause cls tag) as [[pl x names ctx body]|] eqn:Efc;
-            [|eapply sim_stuck; simpl; unfold fselect; rewrite Efc; reflexivity].
-          destruct Hfind as [body' [sta [stb [Ecf [Hwb [Hga [Hgb [Hfvc Hin]]]]]]]].
-          destruct (fbind (fvars ctx) fields e) as [e1|] eqn:Ebind;
-            [|eapply sim_stuck; simpl; unfold fselect; rewrite Efc; simpl; rewrite Ebind; reflexivity].
-          eapply sim_fstep; [simpl; unfold fselect; rewrite Efc; simpl; rewrite Ebind; reflexivity|].
-          (* what the fragment says about this clause *)
-          rewrite forallb_forall in Hfc, Hwc, Hncc.
-          specialize (Hfc _ Hin). specialize (Hwc _ Hin). specialize (Hncc _ Hin). simpl in Hfc, Hwc, Hncc.
-          apply andb_prop in Hfc. destruct Hfc as [Hfc Hfb]. apply andb_prop in Hfc. destruct Hfc as [_ Hprd].
-          destruct (kinds_of_fields ctx fields e e1 Hd Hprd Ebind) as [Hk1 Hk2].
-          assert (Hctx_bnd : forall y, In y (fvars ctx) -> In y (bnd (FCase scrut targs cls ty))).
-          { intros y Hy. simpl. apply in_or_app. right. apply in_flat_map.
-            exists (FClause pl x names ctx body). split; [exact Hin | apply in_or_app; left; exact Hy]. }
-          assert (Hbody_bnd : forall y, In y (bnd body) -> In y (bnd (FCase scrut targs cls ty))).
-          { intros y Hy. simpl. apply in_or_app. right. apply in_flat_map.
-            exists (FClause pl x names ctx body). split; [exact Hin | apply in_or_app; right; exact Hy]. }
-          assert (Hcv : forall x0, In x0 (cvars (compile_ctx ctx)) -> exists y, x0 = new_id y /\ In y (fvars ctx)).
-          { intros x0 Hx0. unfold cvars, compile_ctx in Hx0. rewrite map_map in Hx0. apply in_map_iff in Hx0.
-            destruct Hx0 as [b0 [E Hb0]]. exists (fbvar b0). split; [symmetry; exact E | unfold fvars; apply in_map; exact Hb0]. }
-          (* names of the clause body outside its context are names of the case consumer *)
-          assert (Hout : forall x0, Sof (fvs body') x0 -> ~ In x0 (cvars (compile_ctx ctx)) -> In x0 (cnames (fvc cls'))).
-          { intros x0 Hx0 Hn0. unfold Sof in Hx0. apply in_cnames_inv in Hx0. destruct Hx0 as [bb [Hbb E]]. subst x0.
-            apply in_cnames. apply Hfvc; [exact Hbb|]. intros Hc. apply Hn0. unfold cvars. apply in_map. exact Hc. }
-          destruct (erel_binds p cp j1 G ctx (Sof (fvs body'))
-                      (fun x0 => Sof (fvs body') x0 /\ ~ In x0 (cvars (compile_ctx ctx))) fields fields' e ce' e1)
-            as [ce1 [Hcb [Hr Hlk]]].
-          { eapply brels_mono; [exact Hfields | lia]. }
-          { exact Hk2. }
-          { exact Hk1. }
-          { exact Ebind. }
-          { eapply erel_agree with (S := Sof (fvs s)) (ce := ce).
-            - eapply erel_weaken; [exact He | | lia]. intros x0 Hx0. exact Hx0.
-            - intros x0 [Hx0 Hn0]. pose proof (Hout x0 Hx0 Hn0) as Hc0. split; [apply Hall; exact Hc0 | apply Ha; exact Hc0]. }
-          { intros x0 Hx0 Hn0. split; assumption. }
-          simpl. unfold select. rewrite Ecf. cbn [cl_ctx cl_body]. rewrite Hcb.
-          rewrite Forall_forall in Hcls. specialize (Hcls _ Hin). simpl in Hcls.
-          apply (Hcls j1 ltac:(lia) (compile_ctx ctx ++ G) cur cont1 sta body' stb e1 ce1 k Hwb Hfb Hwc Hncc).
-          * eapply lifted_ok_grows; [exact Lst1 | exact Hgb].
-          * intros bb Hbb. apply in_app_or in Hbb. destruct Hbb as [Hbb|Hbb].
-            -- destruct (Hcv (cbvar bb) (in_map cbvar _ _ Hbb)) as [y [Ey Hy]]. exists y. split; [exact Ey|].
-               eapply grows_vars_incl; [eapply grows_trans; [exact Hg0 | exact Hga]|]. apply Hbn. apply Hctx_bnd. exact Hy.
-            -- eapply Gused_grows; [exact HG | eapply grows_trans; [exact Hg0 | exact Hga] | exact Hbb].
-          * eapply incl_grows; [|eapply grows_trans; [exact Hg0 | exact Hga]]. intros y Hy. apply Hbn. apply Hbody_bnd. exact Hy.
-          * intros x0 Hx0. apply in_cnames_inv in Hx0. destruct Hx0 as [bb [Hbb E]]. subst x0.
-            eapply names_in_grows; [exact Hni | eapply grows_trans; [exact Hg0 | exact Hga] | apply in_cnames; apply Hsub; exact Hbb].
-          * intros y Hy Hiny. apply (H8 y (Hbody_bnd y Hy)).
-            apply in_cnames_inv in Hiny. destruct Hiny as [bb [Hbb E]]. rewrite <- E. apply in_cnames. apply Hsub. exact Hbb.
-          * exact Hsh1.
-          * exact Hr.
-          * eapply CK_transfer; [exact Hsh1 | exact HCK1 | | lia].
-            intros x0 Hxc Hxb.
-            assert (Hn0 : ~ In x0 (cvars (compile_ctx ctx))).
-            { intros Hc0. destruct (Hcv x0 Hc0) as [y [Ey Hy]]. subst x0.
-              apply (H8 y (Hctx_bnd y Hy)).
-              apply in_cnames_inv in Hxc. destruct Hxc as [bb [Hbb E]]. rewrite <- E. apply in_cnames. apply Hsub. exact Hbb. }
-            pose proof (Hout x0 Hxb Hn0) as Hc0.
-            split; [apply Hall; exact Hc0|]. rewrite (Hlk x0 Hn0). apply Ha. exact Hc0. }
-    split; [exact HW|].
-    apply (flc_default p cp N (FCase scrut targs cls ty)
-             (fun cur => wc_case cur (wc (codata_of p) cur false scrut) (fterm_type scrut) (List.length cls)
-                           (fun cont' => clauses_with (fun b => wc (codata_of p) cur false b) cont' cls))); [| |exact HW].
-    - intros cur cont. apply wc_unfold.
-    - intros cur ty0. apply cmp_unfold.
+    intros n Hn G cur cont st s st' e ce k Hwc Hf Hkd Hws Hnc Hl HG Hbn Hni H8 Hsh He HCK.
+    rewrite wc_unfold in Hwc. apply wc_case_inv in Hwc.
+    destruct Hwc as [cont1 [st0 [cls' [st1 [sty0 [Hshare [Hclauses [Esty Hwscrut]]]]]]]].
+    simpl in Hf, Hkd, Hws, Hnc.
+    apply andb_prop in Hf. destruct Hf as [Hf Hfc]. apply andb_prop in Hf. destruct Hf as [Hfs Hdt].
+    apply andb_prop in Hws. destruct Hws as [Hws Hwcl].
+    apply andb_prop in Hnc. destruct Hnc as [Hnn Hncc]. apply andb_prop in Hnn. destruct Hnn as [Hdisj Hns].
+    apply andb_prop in Hkd. destruct Hkd as [Hkd Hkcl]. apply andb_prop in Hkd. destruct Hkd as [Hks Hkty].
+    apply negb_true_iff in Hkty.
+    assert (Hkind : tkind p (FCase scrut targs cls ty) = false) by (unfold tkind; simpl; exact Hkty).
+    rewrite Hkind in *.
+    assert (Hkscrut : tkind p scrut = false).
+    { unfold tkind, data_ty in *. rewrite Esty in *. simpl. apply negb_true_iff in Hdt. exact Hdt. }
+    set (kcont := CXCase CCns cls' (compile_ty sty0)) in *.
+    assert (Hg2 : grows st1 st') by (eapply wc_grows; exact Hwscrut).
+    assert (Hg1 : grows st0 st1).
+    { revert Hclauses. apply mgrows_clauses_with. apply Forall_forall. intros c0 _ k0.
+      apply (proj1 (wc_cmp_grows (codata_of p) cur false (clause_body c0))). }
+    assert (Lst1 : lifted_ok cp st1) by (eapply lifted_ok_grows; [exact Hl | exact Hg2]).
+    assert (Lst0 : lifted_ok cp st0) by (eapply lifted_ok_grows; [exact Lst1 | exact Hg1]).
+    destruct (shared_CK p cp n cur (Nat.leb (List.length cls) 1 || cont_is_small cont) cont st cont1 st0 k ce
+                (Sof (fvs s)) Hshare) as [HCK1 [Hsh1 [Hg0 Hsub]]]; auto.
+    { intros E. apply orb_false_iff in E. tauto. }
+    assert (G1 : grows st st1) by (eapply grows_trans; [exact Hg0 | exact Hg1]).
+    assert (Hsc1 : cont_cns cont1) by (apply (cont_shape_cns cp false); exact Hsh1).
+    assert (HB : Forall (fun c => ubw p cur (clause_body c)) cls).
+    { apply Forall_forall. intros c _. apply (ub_wc p cur). }
+    assert (Hsrc : forall bb, In bb (fvt kcont) -> inG G (flat_map cl_nm cls) bb \/ In bb (fvt cont)).
+    { intros bb Hbb. apply fvt_xcase in Hbb.
+      destruct (ub_clauses p cur G cont1 cls HB Hsc1 _ _ _ Hclauses Hfc Hwcl bb Hbb) as [Hg|Hg]; [left; exact Hg | right; apply Hsub; exact Hg]. }
+    assert (Hcd : is_codata cp (compile_ty sty0) = false).
+    { rewrite (is_codata_compile p cp Hcod). unfold data_ty in Hdt. rewrite Esty in Hdt. apply negb_true_iff in Hdt. exact Hdt. }
+    assert (Hbs : incl (bnd scrut) (st_used_vars st)) by (intros z Hz; apply Hbn; simpl; apply in_or_app; left; exact Hz).
+    destruct n as [|n1]; [apply sim_zero|].
+    eapply sim_fstep; [reflexivity|].
+    apply (Hscrut n1 ltac:(lia) G cur kcont st1 s st' e ce (FkCase cls e k) Hwscrut Hfs Hks Hws Hns Hl).
+    - eapply Gused_grows; eauto.
+    - eapply incl_grows; eauto.
+    - intros x Hx. apply in_cnames_inv in Hx. destruct Hx as [bb [Hbb E]]. subst x.
+      destruct (Hsrc bb Hbb) as [Hg|Hc].
+      + destruct (inG_used G _ bb st HG Hg) as [y [Ey Hy]]. exists y. split; [exact Ey|]. eapply grows_vars_incl; eauto.
+      + eapply names_in_grows; [exact Hni | exact G1 | apply in_cnames; exact Hc].
+    - intros x Hx Hin. apply in_cnames_inv in Hin. destruct Hin as [bb [Hbb E]].
+      destruct (Hsrc bb Hbb) as [Hg|Hc].
+      + destruct (inG_name _ _ _ Hg) as [y [Ey Hy]]. rewrite E in Ey. apply new_id_inj in Ey. subst y.
+        exact (disj_spec _ _ Hdisj x Hx Hy).
+      + apply (H8 x); [simpl; apply in_or_app; left; exact Hx|]. rewrite <- E. apply in_cnames. exact Hc.
+    - rewrite Hkscrut. simpl. split; [reflexivity | exact Hcd].
+    - eapply erel_weaken; [exact He | | lia]. intros x Hx. exact Hx.
+    - rewrite Hkscrut. split.
+      + intros bb Hbb Hs. destruct (Hsrc bb Hbb) as [[Hg _]|Hc].
+        * eapply erel_kind; eauto.
+        * apply (proj1 HCK); assumption.
+      + intros Hall ce' Ha. exists (KCase cls' ce'). split; [reflexivity|].
+        apply (Kb_intro p cp). intros j Hj v pv Hd Hv.
+        destruct j as [|j1]; [apply sim_zero|].
+        destruct v as [z|tag fields|cls0 e0|t0 e0]; try contradiction;
+          [eapply sim_stuck; reflexivity|].
+        apply vrel_ctor in Hv. destruct Hv as [fields' [Epv Hfields]]. subst pv.
+        apply dval_ctor in Hd.
+        pose proof (clauses_find p cur cont1 cls st0 cls' st1 Hclauses tag) as Hfind.
+        destruct (ffind_clause cls tag) as [[pl x names ctx body]|] eqn:Efc;
+          [|eapply sim_stuck; simpl; unfold fselect; rewrite Efc; reflexivity].
+        destruct Hfind as [body' [sta [stb [Ecf [Hwb [Hga [Hgb [Hfvc Hin]]]]]]]].
+        destruct (fbind (fvars ctx) fields e) as [e1|] eqn:Ebind;
+          [|eapply sim_stuck; simpl; unfold fselect; rewrite Efc; simpl; rewrite Ebind; reflexivity].
+        eapply sim_fstep; [simpl; unfold fselect; rewrite Efc; simpl; rewrite Ebind; reflexivity|].
+        (* what the fragment says about this clause *)
+        rewrite forallb_forall in Hfc, Hwcl, Hncc, Hkcl.
+        specialize (Hfc _ Hin). specialize (Hwcl _ Hin). specialize (Hncc _ Hin). specialize (Hkcl _ Hin).
+        simpl in Hfc, Hwcl, Hncc, Hkcl.
+        apply andb_prop in Hfc. destruct Hfc as [Hfc Hfb]. apply andb_prop in Hfc. destruct Hfc as [_ Hprd].
+        apply andb_prop in Hkcl. destruct Hkcl as [Hkb Hkb0]. apply negb_true_iff in Hkb0.
+        destruct (kinds_of_fields p cp Hcod ctx fields e e1 Hd Hprd Ebind) as [Hk1 Hk2].
+        assert (Hctx_bnd : forall y, In y (fvars ctx) -> In y (bnd (FCase scrut targs cls ty))).
+        { intros y Hy. simpl. apply in_or_app. right. apply in_flat_map.
+          exists (FClause pl x names ctx body). split; [exact Hin | apply in_or_app; left; exact Hy]. }
+        assert (Hbody_bnd : forall y, In y (bnd body) -> In y (bnd (FCase scrut targs cls ty))).
+        { intros y Hy. simpl. apply in_or_app. right. apply in_flat_map.
+          exists (FClause pl x names ctx body). split; [exact Hin | apply in_or_app; right; exact Hy]. }
+        assert (Hcv : forall x0, In x0 (cvars (compile_ctx ctx)) -> exists y, x0 = new_id y /\ In y (fvars ctx)).
+        { intros x0 Hx0. unfold cvars, compile_ctx in Hx0. rewrite map_map in Hx0. apply in_map_iff in Hx0.
+          destruct Hx0 as [b0 [E Hb0]]. exists (fbvar b0). split; [symmetry; exact E | unfold fvars; apply in_map; exact Hb0]. }
+        assert (Hout : forall x0, Sof (fvs body') x0 -> ~ In x0 (cvars (compile_ctx ctx)) -> In x0 (cnames (fvc cls'))).
+        { intros x0 Hx0 Hn0. unfold Sof in Hx0. apply in_cnames_inv in Hx0. destruct Hx0 as [bb [Hbb E]]. subst x0.
+          apply in_cnames. apply Hfvc; [exact Hbb|]. intros Hc. apply Hn0. unfold cvars. apply in_map. exact Hc. }
+        destruct (erel_binds p cp j1 G ctx (Sof (fvs body'))
+                    (fun x0 => Sof (fvs body') x0 /\ ~ In x0 (cvars (compile_ctx ctx))) fields fields' e ce' e1)
+          as [ce1 [Hcb [Hr Hlk]]].
+        { eapply brels_mono; [exact Hfields | lia]. }
+        { exact Hk2. }
+        { exact Hk1. }
+        { exact Ebind. }
+        { eapply erel_agree with (S := Sof (fvs s)) (ce := ce).
+          - eapply erel_weaken; [exact He | | lia]. intros x0 Hx0. exact Hx0.
+          - intros x0 [Hx0 Hn0]. pose proof (Hout x0 Hx0 Hn0) as Hc0. split; [apply Hall; exact Hc0 | apply Ha; exact Hc0]. }
+        { intros x0 Hx0 Hn0. split; assumption. }
+        simpl. unfold select. rewrite Ecf. cbn [cl_ctx cl_body]. rewrite Hcb.
+        rewrite Forall_forall in Hcls. specialize (Hcls _ Hin). simpl in Hcls.
+        rewrite <- Hkb0 in Hsh1, HCK1.
+        apply (Hcls j1 ltac:(lia) (compile_ctx ctx ++ G) cur cont1 sta body' stb e1 ce1 k Hwb Hfb Hkb Hwcl Hncc).
+        * eapply lifted_ok_grows; [exact Lst1 | exact Hgb].
+        * intros bb Hbb. apply in_app_or in Hbb. destruct Hbb as [Hbb|Hbb].
+          -- destruct (Hcv (cbvar bb) (in_map cbvar _ _ Hbb)) as [y [Ey Hy]]. exists y. split; [exact Ey|].
+             eapply grows_vars_incl; [eapply grows_trans; [exact Hg0 | exact Hga]|]. apply Hbn. apply Hctx_bnd. exact Hy.
+          -- eapply Gused_grows; [exact HG | eapply grows_trans; [exact Hg0 | exact Hga] | exact Hbb].
+        * eapply incl_grows; [|eapply grows_trans; [exact Hg0 | exact Hga]]. intros y Hy. apply Hbn. apply Hbody_bnd. exact Hy.
+        * intros x0 Hx0. apply in_cnames_inv in Hx0. destruct Hx0 as [bb [Hbb E]]. subst x0.
+          eapply names_in_grows; [exact Hni | eapply grows_trans; [exact Hg0 | exact Hga] | apply in_cnames; apply Hsub; exact Hbb].
+        * intros y Hy Hiny. apply (H8 y (Hbody_bnd y Hy)).
+          apply in_cnames_inv in Hiny. destruct Hiny as [bb [Hbb E]]. rewrite <- E. apply in_cnames. apply Hsub. exact Hbb.
+        * exact Hsh1.
+        * exact Hr.
+        * eapply CK_transfer; [exact Hsh1 | exact HCK1 | | lia].
+          intros x0 Hxc Hxb.
+          assert (Hn0 : ~ In x0 (cvars (compile_ctx ctx))).
+          { intros Hc0. destruct (Hcv x0 Hc0) as [y [Ey Hy]]. subst x0.
+            apply (H8 y (Hctx_bnd y Hy)).
+            apply in_cnames_inv in Hxc. destruct Hxc as [bb [Hbb E]]. rewrite <- E. apply in_cnames. apply Hsub. exact Hbb. }
+          pose proof (Hout x0 Hxb Hn0) as Hc0.
+          split; [apply Hall; exact Hc0|]. rewrite (Hlk x0 Hn0). apply Ha. exact Hc0.
   Qed.
 
   (* ---------- assembly: every term, every fuel bound ---------- *)
